@@ -106,8 +106,11 @@ class DoSBot(DatabaseClient, discriminator="dos-bot"):
             :rtype: RequestResponse
             """
             options = dict(request[-1])  # the request belongs to the caller (it is kept in the agent's history): never edit it
-            if "target_ip_address" in options:
-                options["target_ip_address"] = ipv4_validator(options["target_ip_address"])
+            if "target_ip_address" not in options:
+                # the action's schema makes every option optional, `configure` needs the target: answer, do not raise
+                self.sys_log.warning(f"{self.name}: cannot be configured without a target_ip_address")
+                return RequestResponse(status="failure", data={"reason": "target_ip_address is required"})
+            options["target_ip_address"] = ipv4_validator(options["target_ip_address"])
             if "target_port" in options:
                 options["target_port"] = port_validator(options["target_port"])
             return RequestResponse.from_bool(self.configure(**options))
